@@ -1599,6 +1599,27 @@ theorem rel_registerOp {H : Hier} (hH : HierFacts H) {r : Reg} {ρ : RefReg} (h 
   · intro t' op' h' hc
     simp [Glom.C13.registerOp, odGet] at hc
 
+/-- a `register` call with its TypeError path: rejected on both sides (nothing changes) or applied
+    on both sides -/
+theorem rel_registerChecked {H : Hier} (hH : HierFacts H) {r : Reg} {ρ : RefReg} (h : Rel H r ρ)
+    (t : Ty) (exact : Bool) (kw : List (Op × Handler)) :
+    Rel H (registerChecked H r t exact kw).1 (refRegisterChecked H ρ t exact kw) := by
+  unfold registerChecked refRegisterChecked
+  rw [h.handlers, h.autoOps]
+  cases hv : firstInvalid (newOpMap H r.typeMap r.autoMap t kw) with
+  | some op => simpa using h
+  | none => simpa using rel_register hH h t exact kw
+
+theorem rel_registerOpChecked {H : Hier} (hH : HierFacts H) {r : Reg} {ρ : RefReg} (h : Rel H r ρ)
+    (op : Op) (auto : String) (exact : Bool) (order : List Ty) :
+    Rel H (registerOpChecked H r op auto exact order).1 (refRegisterOpChecked H ρ op auto exact order) := by
+  have htab : ρ.table op = r.map op := by simp [RefReg.table, Reg.map, h.handlers]
+  unfold registerOpChecked refRegisterOpChecked
+  rw [htab]
+  cases hv : firstInvalidAuto H auto order (r.map op) with
+  | some t => simpa using h
+  | none => simpa using rel_registerOp hH h op auto exact order
+
 theorem closest_mem_nodes {H : Hier} {t : Ty} {f : Forest} {c : Ty} (h : closest H t f = some c) :
     c ∈ f.nodes ∧ H.inst t c = true := by
   have := (pickMin_some h).1
@@ -1748,10 +1769,13 @@ theorem run_checks {H : Hier} (hH : HierFacts H) (acts : List Action) :
     cases a with
     | register i t e kw =>
       simp only [run, step, checkRun, refStep, Bool.true_and]
-      exact ih _ _ (All2.updateAt (fun r ρ h => rel_register hH h t e kw) i hw)
+      exact ih _ _ (All2.updateAt (fun r ρ h => rel_registerChecked hH h t e kw) i hw)
     | registerOp i op au e ord =>
       simp only [run, step, checkRun, refStep, Bool.true_and]
-      exact ih _ _ (All2.updateAt (fun r ρ h => rel_registerOp hH h op au e ord) i hw)
+      exact ih _ _ (All2.updateAt (fun r ρ h => rel_registerOpChecked hH h op au e ord) i hw)
+    | badCall i err =>
+      simp only [run, step, checkRun, refStep, Bool.true_and]
+      exact ih _ _ hw
     | lookup i op t re =>
       simp only [run, step]
       obtain ⟨hsome, hnone⟩ := hw.get i
@@ -1811,8 +1835,9 @@ theorem rel_mk {H : Hier} (hH : HierFacts H) (S : Setup) (orders : List (List Ty
 theorem step_rel {H : Hier} (hH : HierFacts H) (a : Action) {w : List Reg} {ω : List RefReg}
     (hw : All2 (Rel H) w ω) : All2 (Rel H) (step H w a).1 (refStep H ω a) := by
   cases a with
-  | register i t e kw => exact All2.updateAt (fun r ρ h => rel_register hH h t e kw) i hw
-  | registerOp i op au e ord => exact All2.updateAt (fun r ρ h => rel_registerOp hH h op au e ord) i hw
+  | register i t e kw => exact All2.updateAt (fun r ρ h => rel_registerChecked hH h t e kw) i hw
+  | registerOp i op au e ord => exact All2.updateAt (fun r ρ h => rel_registerOpChecked hH h op au e ord) i hw
+  | badCall i err => exact hw
   | lookup i op t re =>
     simp only [step, refStep]
     obtain ⟨hsome, _⟩ := hw.get i
@@ -1861,6 +1886,86 @@ theorem getHandler_handler {H : Hier} (hH : HierFacts H) {r : Reg} {ρ : RefReg}
       | some v => simp at hn
     · simp only [hn, Bool.false_eq_true, if_false, Answer.handler]
 
+/-! #### the memo policy: memoising failed lookups too is harmless *as long as every registration
+     resets the memo* (which is what `Rel.cache` records) -/
+
+theorem getHandlerV_false (H : Hier) (r : Reg) (op : Op) (t : Ty) (re : Bool) :
+    getHandlerV false H r op t re = getHandler H r op t re := by
+  unfold getHandlerV getHandler
+  cases odGet (t, op) r.cache with
+  | some h => simp
+  | none =>
+    simp only
+    cases resolve H r op t with
+    | none => rfl
+    | some h => simp
+
+/-- adding the current answer to the memo keeps the correspondence -/
+theorem Rel.cacheSet {H : Hier} {r : Reg} {ρ : RefReg} (h : Rel H r ρ) {op : Op} {t : Ty} {hd : Handler}
+    (hres : resolve H r op t = some hd) : Rel H { r with cache := odSet (t, op) hd r.cache } ρ := by
+  refine ⟨h.handlers, h.autoOps, h.tree, h.subMap, ?_⟩
+  intro t' op' h' hc'
+  rw [resolve_cache_irrel]
+  by_cases hk : (t', op') = (t, op)
+  · injection hk with h1 h2
+    subst h1; subst h2
+    rw [odGet_odSet_same] at hc'
+    injection hc' with hc'
+    subst hc'
+    exact hres
+  · rw [odGet_odSet_ne _ _ hk] at hc'
+    exact h.cache t' op' h' hc'
+
+/-- one `get_handler` call under either memo policy: the registry still corresponds to the same
+    reference registry, the answer is one the reference allows, and it is the un-memoised one -/
+theorem rel_getHandlerV {H : Hier} (hH : HierFacts H) {r : Reg} {ρ : RefReg} (h : Rel H r ρ)
+    (sm : Bool) (op : Op) (t : Ty) (re : Bool) :
+    Rel H (getHandlerV sm H r op t re).1 ρ ∧
+      answerOk (refAnswers H ρ op t) (getHandlerV sm H r op t re).2 = true ∧
+      (getHandlerV sm H r op t re).2.handler = resolve H r op t := by
+  obtain ⟨hd, hres, hacc⟩ := resolve_ok hH h op t
+  unfold getHandlerV
+  cases hc : odGet (t, op) r.cache with
+  | some hd' =>
+    have hcur := h.cache t op hd' hc
+    rw [hres] at hcur
+    injection hcur with hcur
+    subst hcur
+    by_cases hn : (sm && hd.isNone && re) = true
+    · simp only [hn, if_true]
+      have : hd = none := by
+        cases hd with
+        | none => rfl
+        | some v => simp at hn
+      subst this
+      exact ⟨h, by simpa [answerOk] using hacc, by simp [Answer.handler, hres]⟩
+    · simp only [hn, Bool.false_eq_true, if_false]
+      exact ⟨h, by simpa [answerOk] using hacc, by simp [Answer.handler, hres]⟩
+  | none =>
+    simp only [hres]
+    by_cases hn : (hd.isNone && re) = true
+    · simp only [hn, if_true]
+      have : hd = none := by
+        cases hd with
+        | none => rfl
+        | some v => simp at hn
+      subst this
+      refine ⟨?_, by simpa [answerOk] using hacc, by simp [Answer.handler]⟩
+      cases sm with
+      | false => exact h
+      | true => exact h.cacheSet hres
+    · simp only [hn, Bool.false_eq_true, if_false]
+      exact ⟨h.cacheSet hres, by simpa [answerOk] using hacc, by simp [Answer.handler]⟩
+
+theorem updateAt_id {α : Type} : ∀ (i : Nat) (w : List α), updateAt (fun r => r) i w = w := by
+  intro i w
+  induction w generalizing i with
+  | nil => cases i <;> rfl
+  | cons a w ih =>
+    cases i with
+    | zero => rfl
+    | succ n => simp [updateAt, ih n]
+
 /-- two registries that differ in their memo only -/
 def EqC (r r' : Reg) : Prop :=
   r.typeMap = r'.typeMap ∧ r.typeTree = r'.typeTree ∧ r.autoMap = r'.autoMap
@@ -1877,6 +1982,25 @@ theorem EqC.registerOp {r r' : Reg} (h : EqC r r') (H : Hier) (op : Op) (a : Str
     (ord : List Ty) : EqC (Glom.C13.registerOp H r op a e ord) (Glom.C13.registerOp H r' op a e ord) := by
   simp [EqC, Glom.C13.registerOp, Reg.map, Reg.tree, h.1, h.2.1, h.2.2]
 
+theorem EqC.registerChecked {r r' : Reg} (h : EqC r r') (H : Hier) (t : Ty) (e : Bool)
+    (kw : List (Op × Handler)) :
+    EqC (Glom.C13.registerChecked H r t e kw).1 (Glom.C13.registerChecked H r' t e kw).1 := by
+  unfold Glom.C13.registerChecked
+  rw [h.1, h.2.2]
+  cases firstInvalid (newOpMap H r'.typeMap r'.autoMap t kw) with
+  | some op => exact h
+  | none => exact h.register H t e kw
+
+theorem EqC.registerOpChecked {r r' : Reg} (h : EqC r r') (H : Hier) (op : Op) (a : String) (e : Bool)
+    (ord : List Ty) :
+    EqC (Glom.C13.registerOpChecked H r op a e ord).1 (Glom.C13.registerOpChecked H r' op a e ord).1 := by
+  unfold Glom.C13.registerOpChecked
+  have : r.map op = r'.map op := by simp [Reg.map, h.1]
+  rw [this]
+  cases firstInvalidAuto H a ord (r'.map op) with
+  | some t => exact h
+  | none => exact h.registerOp H op a e ord
+
 theorem getHandler_eqC (H : Hier) (r : Reg) (op : Op) (t : Ty) (re : Bool) :
     EqC (getHandler H r op t re).1 r := by
   unfold getHandler
@@ -1891,6 +2015,104 @@ theorem getHandler_eqC (H : Hier) (r : Reg) (op : Op) (t : Ty) (re : Bool) :
       by_cases hn : (h.isNone && re) = true
       · simp only [hn, if_true]; exact ⟨rfl, rfl, rfl⟩
       · simp only [hn, Bool.false_eq_true, if_false]; exact ⟨rfl, rfl, rfl⟩
+
+theorem getHandlerV_eqC (sm : Bool) (H : Hier) (r : Reg) (op : Op) (t : Ty) (re : Bool) :
+    EqC (getHandlerV sm H r op t re).1 r := by
+  unfold getHandlerV
+  cases odGet (t, op) r.cache with
+  | some h =>
+    simp only
+    by_cases hn : (sm && h.isNone && re) = true
+    · simp only [hn, if_true]; exact ⟨rfl, rfl, rfl⟩
+    · simp only [hn, Bool.false_eq_true, if_false]; exact ⟨rfl, rfl, rfl⟩
+  | none =>
+    simp only
+    cases resolve H r op t with
+    | none => exact ⟨rfl, rfl, rfl⟩
+    | some h =>
+      simp only
+      by_cases hn : (h.isNone && re) = true
+      · simp only [hn, if_true]
+        cases sm with
+        | false => exact ⟨rfl, rfl, rfl⟩
+        | true => exact ⟨rfl, rfl, rfl⟩
+      · simp only [hn, Bool.false_eq_true, if_false]; exact ⟨rfl, rfl, rfl⟩
+
+/-- a registration erases every trace of earlier lookups: registries that differ in their memo
+    only are *equal* after the same `register` / `register_op` call (accepted or refused … a
+    refused one keeps the memo: see `registerChecked_eqC`) -/
+theorem register_eq_of_eqC {r r' : Reg} (h : EqC r r') (H : Hier) (t : Ty) (e : Bool)
+    (kw : List (Op × Handler)) : Glom.C13.register H r t e kw = Glom.C13.register H r' t e kw := by
+  obtain ⟨h1, h2, h3⟩ := h
+  simp [Glom.C13.register, h1, h2, h3]
+
+theorem registerOp_eq_of_eqC {r r' : Reg} (h : EqC r r') (H : Hier) (op : Op) (a : String) (e : Bool)
+    (ord : List Ty) : Glom.C13.registerOp H r op a e ord = Glom.C13.registerOp H r' op a e ord := by
+  obtain ⟨h1, h2, h3⟩ := h
+  simp [Glom.C13.registerOp, Reg.map, Reg.tree, h1, h2, h3]
+
+/-- a sequence of `get_handler` calls (under either memo policy) on one registry -/
+def lookupsOn (sm : Bool) (H : Hier) (r : Reg) : List (Op × Ty × Bool) → Reg
+  | [] => r
+  | (op, t, re) :: ls => lookupsOn sm H (getHandlerV sm H r op t re).1 ls
+
+theorem lookupsOn_eqC (sm : Bool) (H : Hier) (ls : List (Op × Ty × Bool)) :
+    ∀ r, EqC (lookupsOn sm H r ls) r := by
+  induction ls with
+  | nil => intro r; exact ⟨rfl, rfl, rfl⟩
+  | cons l ls ih =>
+    intro r
+    obtain ⟨op, t, re⟩ := l
+    have h1 := ih (getHandlerV sm H r op t re).1
+    have h2 := getHandlerV_eqC sm H r op t re
+    exact ⟨h1.1.trans h2.1, h1.2.1.trans h2.2.1, h1.2.2.trans h2.2.2⟩
+
+theorem updateAt_fix {α : Type} (f : α → α) : ∀ (i : Nat) (w : List α),
+    (∀ a, w[i]? = some a → f a = a) → updateAt f i w = w := by
+  intro i w
+  induction w generalizing i with
+  | nil => intro _; cases i <;> rfl
+  | cons a w ih =>
+    intro h
+    cases i with
+    | zero => simp [updateAt, h a (by simp)]
+    | succ n => simp [updateAt, ih n (fun b hb => h b (by simpa using hb))]
+
+/-- what `register_op` stores for a known type: its previous handler, else the auto-discovered one -/
+theorem fillAuto_value (H : Hier) (auto : String) (t : Ty) (order : List Ty) :
+    ∀ m : List (Ty × Handler), odGet t (fillAuto H auto order m) =
+      match odGet t m with
+      | some v => some v
+      | none => if t ∈ order then some (H.auto auto t) else none := by
+  induction order with
+  | nil => intro m; cases h : odGet t m <;> simp [fillAuto, h]
+  | cons x xs ih =>
+    intro m
+    have hstep : fillAuto H auto (x :: xs) m =
+        fillAuto H auto xs (match odGet x m with | some _ => m | none => odSet x (H.auto auto x) m) := rfl
+    rw [hstep]
+    cases hx : odGet x m with
+    | some v =>
+      simp only
+      rw [ih m]
+      cases ht : odGet t m with
+      | some v' => rfl
+      | none =>
+        simp only
+        have hne : t ≠ x := by
+          intro e; subst e; rw [hx] at ht; cases ht
+        simp [hne]
+    | none =>
+      simp only
+      rw [ih]
+      by_cases hxt : t = x
+      · subst hxt
+        rw [odGet_odSet_same, hx]
+        simp
+      · rw [odGet_odSet_ne _ _ hxt]
+        cases ht : odGet t m with
+        | some v' => rfl
+        | none => simp [hxt]
 
 def Action.isLookup : Action → Bool
   | .lookup .. => true
@@ -1914,10 +2136,13 @@ theorem finalWorld_dropLookups (H : Hier) (acts : List Action) :
     cases a with
     | register i t e kw =>
       simp only [finalWorld, step, List.filter, Action.isLookup, Bool.not_false]
-      exact ih (All2.updateAt (fun r r' hr => hr.register H t e kw) i h)
+      exact ih (All2.updateAt (fun r r' hr => hr.registerChecked H t e kw) i h)
     | registerOp i op au e ord =>
       simp only [finalWorld, step, List.filter, Action.isLookup, Bool.not_false]
-      exact ih (All2.updateAt (fun r r' hr => hr.registerOp H op au e ord) i h)
+      exact ih (All2.updateAt (fun r r' hr => hr.registerOpChecked H op au e ord) i h)
+    | badCall i err =>
+      simp only [finalWorld, step, List.filter, Action.isLookup, Bool.not_false]
+      exact ih h
     | lookup i op t re =>
       simp only [finalWorld, step, List.filter, Action.isLookup, Bool.not_true]
       apply ih
@@ -1945,6 +2170,8 @@ theorem refStep_dropLookups (H : Hier) (acts : List Action) :
     | register i t e kw =>
       simp only [List.filter, Action.isLookup, Bool.not_false, List.foldl_cons]; exact ih _
     | registerOp i op au e ord =>
+      simp only [List.filter, Action.isLookup, Bool.not_false, List.foldl_cons]; exact ih _
+    | badCall i err =>
       simp only [List.filter, Action.isLookup, Bool.not_false, List.foldl_cons]; exact ih _
     | lookup i op t re =>
       simp only [List.filter, Action.isLookup, Bool.not_true, List.foldl_cons, refStep]; exact ih _
